@@ -84,8 +84,8 @@ def worker(arg):
 
 def check(tier, seed):
     t = pc.trees("plain", "san")
-    n = 200 if tier == "quick" else 1200
-    nsan = 16 if tier == "quick" else 96
+    n = 200 if tier == "quick" else 1000
+    nsan = 16 if tier == "quick" else 64
     res = Result("exploration")
     res.rule = RULE
     base = seed * 1000000 + (0 if tier == "quick" else 50000) + 400000
